@@ -23,7 +23,7 @@ type parseOutcome struct {
 	MainDone  bool
 }
 
-var parserFaultKinds = []string{"preemptions", "stall_steps", "access_stalls", "park_on_full_channel", "park_on_empty_channel", "park_on_held_mutex",
+var parserFaultKinds = []string{"preemptions", "clock_jumps", "stall_steps", "access_stalls", "park_on_full_channel", "park_on_empty_channel", "park_on_held_mutex",
 	"scanner_parked_on_full_token_queue", "parser_parked_on_empty_token_queue", "parser_died_with_tokens_in_flight"}
 
 // simParse runs ParseSource(src) as the main task; the scanner goroutine is
@@ -139,11 +139,40 @@ var grammarChecked bool
 
 func (propC11) ID() string { return "C11" }
 
+// long documents: far more tokens than any internal buffer, and sources of
+// several kilobytes (size-dependent behaviour must not depend on the size)
+const longDocs = 24
+
+func longSentence(i int) sentence {
+	n := []int{600, 800, 1200}[i%3]
+	layout := (i / 3) % 4
+	ctx := []string{"List", "Array"}[(i/12)%2]
+	var items []string
+	want := &node{Kind: ctx}
+	for k := 0; k < n; k++ {
+		v := int64(100000 + k)
+		items = append(items, strconv.FormatInt(v, 10))
+		want.Kids = append(want.Kids, &node{Kind: "int", I: v})
+	}
+	var text string
+	switch layout {
+	case 0:
+		text = "[" + strings.Join(items, ",") + "](" + ctx + ")"
+	case 1:
+		text = "[" + strings.Join(items, ", ") + "](" + ctx + ")\n"
+	case 2:
+		text = "[\n" + strings.Join(items, "\n") + "\n](" + ctx + ")"
+	default:
+		text = "[\n    " + strings.Join(items, "\n    ") + "\n](" + ctx + ")\n"
+	}
+	return sentence{Text: text, Want: want}
+}
+
 func (propC11) Cases(tier string) int {
 	if tier == "thorough" {
-		return systematicCount() + len(mustReject)*len(contexts)*2 + 150000
+		return systematicCount() + len(mustReject)*len(contexts)*2 + longDocs + 150000
 	}
-	return systematicCount() + len(mustReject)*len(contexts)*2 + 6000
+	return systematicCount() + len(mustReject)*len(contexts)*2 + longDocs + 6000
 }
 
 type c11Desc struct {
@@ -181,6 +210,8 @@ func (propC11) Run(ctx *Ctx, index int) {
 		cx := contexts[i%len(contexts)]
 		multi := i/len(contexts) == 1
 		runC11Reject(ctx, rej.Alt, rej.Text, cx, multi, k)
+	case index < sys+nrej+longDocs:
+		runC11Sentence(ctx, "long-document", longSentence(index-sys-nrej), k)
 	default:
 		big := ctx.Prog.Choose(3) == 2
 		s := genSentence(ctx.Prog, big)
@@ -286,6 +317,9 @@ func sentenceSig(s sentence) string {
 	if s.Want != nil {
 		if len(s.Want.Kids) == 0 {
 			layout = "empty"
+		}
+		if len(s.Want.Kids) >= 500 {
+			layout += ":long-document"
 		}
 		return s.Want.Kind + ":" + layout
 	}
